@@ -4,7 +4,17 @@ from sim import core, build, hist
 from sim.core import Outcome, PRNG, HarnessError, digest_of
 
 CDEF = ("struct s0 { int a; }; struct s1 { long b; struct s0 *p; }; union u0 { int x; char y; };"
-        "enum e0 { EA0, EB0 }; typedef int myint_t; typedef struct s0 *s0ptr_t;")
+        "enum e0 { EA0, EB0 }; typedef int myint_t; typedef struct s0 *s0ptr_t;"
+        # array lengths that need more than 7 bits in one of the bytes of the words of a generated module
+        "typedef int arr200_t[200]; typedef char *arrp255_t[255]; typedef unsigned short arr1000_t[1000];"
+        "typedef double arr40000_t[40000]; typedef signed char arr128_t[128]; typedef long arr127_t[127];"
+        "typedef int arr65535_t[65535]; typedef char arr8388613_t[8388613];")
+TDEFS = {'myint_t': ['prim', 'int'], 's0ptr_t': ['ptr', ['agg', 'struct s0']],
+         'arr200_t': ['arr', ['prim', 'int'], 200], 'arrp255_t': ['arr', ['ptr', ['prim', 'char']], 255],
+         'arr1000_t': ['arr', ['prim', 'unsigned short'], 1000], 'arr40000_t': ['arr', ['prim', 'double'], 40000],
+         'arr128_t': ['arr', ['prim', 'signed char'], 128], 'arr127_t': ['arr', ['prim', 'long'], 127],
+         'arr65535_t': ['arr', ['prim', 'int'], 65535], 'arr8388613_t': ['arr', ['prim', 'char'], 8388613]}
+ARR_TDEFS = sorted(k for k in TDEFS if TDEFS[k][0] == 'arr')
 PRIMS = ['int', 'long', 'char', 'double', 'unsigned short', 'signed char', 'float', 'uint64_t']
 AGGS = ['struct s0', 'struct s1', 'union u0', 'enum e0']
 
@@ -60,7 +70,7 @@ def is_variadic(ct):
 def uses_agg(d):
     k = d[0]
     if k in ('agg', 'tdef'):
-        return d[1] != 'myint_t'
+        return d[1] != 'myint_t' and d[1] not in ARR_TDEFS
     if k in ('prim', 'void'):
         return False
     if k == 'func':
@@ -85,6 +95,8 @@ def gen_desc(rng, depth, allow_agg, top=True):
     if depth <= 0 or r < 0.18:
         if allow_agg and rng.chance(0.3):
             if rng.chance(0.25):
+                if rng.chance(0.4):
+                    return ['tdef', rng.choice(ARR_TDEFS)]
                 return ['tdef', rng.choice(['myint_t', 's0ptr_t'])]
             return ['agg', rng.choice(AGGS)]
         return ['prim', rng.choice(PRIMS)]
@@ -95,6 +107,8 @@ def gen_desc(rng, depth, allow_agg, top=True):
     if r < 0.82:
         item = gen_desc(rng, depth - 1, allow_agg, False)
         n = None if (top and rng.chance(0.3)) else (0 if rng.chance(0.15) else rng.randint(1, 5))
+        if n and rng.chance(0.1):
+            n = rng.choice([128, 129, 200, 255, 256, 1000, 32767, 32768, 40000, 65535, 65536, (1 << 23) + 5])
         if n and top and rng.chance(0.08):
             # lengths that do not fit 32 bits (types only: never instantiated)
             n = rng.choice([2 ** 31, 2 ** 32, 2 ** 32 + rng.randint(1, 5), 3 * 10 ** 9, 2 ** 31 - 1])
@@ -105,10 +119,14 @@ def gen_desc(rng, depth, allow_agg, top=True):
         a = gen_desc(rng, min(depth - 1, 1), allow_agg, False)
         if a[0] == 'arr':
             a = ['ptr', a[1]]
+        if a[0] == 'tdef' and a[1] in ARR_TDEFS:
+            a = ['ptr', TDEFS[a[1]][1]]
         args.append(a)
     res = ['void'] if rng.chance(0.2) else gen_desc(rng, min(depth - 1, 1), allow_agg, False)
     if res[0] == 'arr':
         res = ['ptr', res[1]]
+    if res[0] == 'tdef' and res[1] in ARR_TDEFS:
+        res = ['prim', 'int']
     if res[0] == 'agg' and res[1].startswith('union'):
         res = ['prim', 'int']
     ell = bool(args) and rng.chance(0.2)
@@ -117,6 +135,17 @@ def gen_desc(rng, depth, allow_agg, top=True):
         # ABI numbers libffi accepts here for a prepared cif, any small number for a variadic type
         return ['func', res, args, ell, rng.choice([2, 3, 4]) if not ell else rng.choice([1, 2, 3, 4, 5])]
     return ['func', res, args, ell]
+
+
+def total_items(d):
+    """number of scalar items an instance of the array type would hold (0: not an array / open)"""
+    if d[0] == 'tdef':
+        d = TDEFS[d[1]]
+    if d[0] != 'arr':
+        return 1
+    if d[2] is None:
+        return 0
+    return d[2] * total_items(d[1])
 
 
 def fix_open_arrays(d, top=True):
@@ -223,7 +252,9 @@ class Run(object):
             return None if (ct.kind == 'primitive' and ct.cname == d[1]) else 'primitive %r' % d[1]
         if k == 'void':
             return None if ct.kind == 'void' else 'void'
-        if k in ('agg', 'tdef'):
+        if k == 'tdef':
+            return self.shape_mismatch(ct, TDEFS[d[1]], abis)
+        if k == 'agg':
             return None
         if k == 'ptr':
             if ct.kind != 'pointer':
@@ -315,7 +346,7 @@ class Run(object):
             t = self.build_string(entry, d)
             if d[0] == 'ptr' and d[1][0] not in ('func',):
                 ct = self.checked(ffi.typeof(ffi.cast(t, 0)), d, 'typeof(cast)')
-            elif d[0] == 'arr' and d[2] is not None and d[2] <= 1000:
+            elif d[0] == 'arr' and d[2] is not None and total_items(d) <= 20000:
                 ct = self.checked(ffi.typeof(ffi.new(t)), d, 'typeof(new)')
             else:
                 ct = t
